@@ -25,9 +25,8 @@ from odfdo.element import Element  # noqa: E402
 
 class SymEText(LazyIntSymbolicStr):
     def __init__(self, text_result):
-        if isinstance(text_result, LazyIntSymbolicStr):
-            cps = text_result._codepoints
-        else:
+        cps = getattr(text_result, "_codepoints", None)  # (isinstance is answered with the Python type under CrossHair)
+        if cps is None:
             cps = list(map(ord, text_result))
         LazyIntSymbolicStr.__init__(self, cps)
         self._parent = text_result.getparent()
@@ -45,13 +44,12 @@ class SymEText(LazyIntSymbolicStr):
         return self._is_tail
 
 
-class _Meta(type):
-    def __call__(cls, text_result):
+class ETextShim(str):
+    """bound to the name `EText` in the odfdo modules: ETextShim(x) builds a SymEText (through
+    __new__, which CrossHair's call interception honours), isinstance(x, EText) sees a str subclass"""
+
+    def __new__(cls, text_result):
         return SymEText(text_result)
-
-
-class ETextShim(str, metaclass=_Meta):
-    """bound to the name `EText` in the odfdo modules"""
 
 
 SymEText.__ch_pytype__ = lambda self: ETextShim
